@@ -108,12 +108,15 @@ class LazyEncoder(Encoder):
         self._existence_design_vars = existence_dvs = \
             {existence: self._encode(existence) for existence in gen.iter_existence()}
         self._design_vars = dvs = self._merge_design_vars(list(existence_dvs.values()))
-        for i, dv in enumerate(dvs):
-            if dv.n_opts < 2:
-                raise RuntimeError(f'All design variables must have at least 2 options: {i} has {dv.n_opts} opts')
+        self._validate_design_vars(dvs)
 
         self._imputer.initialize(self._matrix_gen, self._existence_design_vars, self._design_vars, self._decode)
         self._empty_matrix = None
+
+    def _validate_design_vars(self, design_vars: List[DiscreteDV]):
+        for i, dv in enumerate(design_vars):
+            if dv.n_opts < 2:
+                raise RuntimeError(f'All design variables must have at least 2 options: {i} has {dv.n_opts} opts')
 
     def set_imputer(self, imputer: LazyImputer):
         self._imputer = imputer
